@@ -73,6 +73,8 @@ def configs(tier):
         out.append(dict(part="term", term="ic", statio=False, dsp=dsp, B=2, r=1))
         out.append(dict(part="term", term="norm", statio=True, dsp=dsp, B=2, r=1))
         out.append(dict(part="term", term="norm", statio=False, dsp=dsp, B=2, r=1))
+    # more normalisation samples than batch times (a strict multiple): every batch time still gets its own integral
+    out.append(dict(part="term", term="norm", statio=False, dsp=1, B=2, r=1, ns=4))
     return out
 
 
@@ -305,7 +307,8 @@ def run(cfg, R):
             return ls.evaluate(params, bs)[1][tname], lp.evaluate(params, bp)[1][tname]
         args = (ls, lp, params, t, x)
     else:   # norm
-        S = jnp.arange(1, B * dsp + 1).reshape(B, dsp) * 0.21; L = jnp.array(1.5)
+        ns = cfg.get("ns", B)
+        S = jnp.arange(1, ns * dsp + 1).reshape(ns, dsp) * 0.21; L = jnp.array(1.5)
         gS = jnp.stack(jnp.meshgrid(*[S[:, j] for j in range(dsp)], indexing="ij"), axis=-1).reshape(-1, dsp)
         ls, _ = mk_losses(dict(norm_samples=S, norm_int_length=L))
         _, lp = mk_losses(dict(norm_samples=gS, norm_int_length=L))
@@ -320,7 +323,7 @@ def run(cfg, R):
                 bs = PDENonStatioBatch(times_x_inside_batch=jnp.concatenate([t, x], axis=1), times_x_border_batch=None); bp = bs
             return ls.evaluate(params, bs)[1][tname], lp2.evaluate(params, bp)[1][tname]
         args = (ls, lp, params, t, x)
-    name = f"term/{term}/{'statio' if statio else 'nonstatio'}/d{dsp}/B{B}" + (f"/m{mt}dim{bdim}" if bdim is not None else "") + (f"/{cfg['w']}" if term == "dyn" else "")
+    name = f"term/{term}/{'statio' if statio else 'nonstatio'}/d{dsp}/B{B}" + (f"/m{mt}dim{bdim}" if bdim is not None else "") + (f"/{cfg['w']}" if term == "dyn" else "") + (f"/ns{cfg['ns']}" if cfg.get("ns") else "")
     tr = R.trace(name, f, args, key=f"term:{term}:raises")
     if tr is None: return
 
